@@ -21,7 +21,7 @@ from hexital import Hexital  # noqa: E402
 
 ID = "C07"
 LEVEL = "exploration"
-CASE_TIMEOUT = 240
+CASE_TIMEOUT = 600
 STEP_BUDGET = 400_000_000
 RULE = ("case = (1 standalone indicator or 2-5 members in a Hexital, base or collapsing timeframe, optional HA; stream family walk / spiky / "
         "never-moving / never-trading / unbroken up- or down-trend through the whole history, with Counter-over-streak member sets on the "
